@@ -435,7 +435,8 @@ def judge(J, L, victim, label, replay, peak=None, named=None, after_ok=None):
                             ok = peer.exc.description == exc.description and peer.exc.level == 2
                 if not ok:
                     viol(("alert-not-on-wire", fn, line), "c08:local-alert-%s-not-on-wire-in-%s" % (exc.description, fn),
-                         "TLSLocalAlert(%s) raised but the last record written is not that fatal alert" % exc.description,
+                         "TLSLocalAlert(%s) raised but the last record written is not that fatal alert%s"
+                         % (exc.description, "; the peer is left waiting for input" if peer.state == "stall" else ""),
                          "alert-not-on-wire")
                 out["alert"] = exc.description
             elif isinstance(exc, (errors.TLSRemoteAlert, errors.TLSAbruptCloseError, socket.error)):
@@ -580,7 +581,7 @@ def post_exchange(L):
             return
 
 
-def run_handshake_case(scn, side, target, desc, ctxm):
+def run_handshake_case(scn, side, target, desc, ctxm, close_socket=True):
     """fresh handshake in which `side` sends the mutated target-th message; returns (L, applied, peak)"""
     from harness import lab
     st = scn.prep(scn) if scn.prep else None
@@ -590,6 +591,9 @@ def run_handshake_case(scn, side, target, desc, ctxm):
     L.max_steps = 20000
     scn.start(L, st)
     applied = {}
+    if not close_socket:
+        # the application keeps the socket: nothing but the library's own writes tells the peer about a failure
+        L.end("server" if side == "client" else "client").conn.closeSocket = False
     install_mutation(L.end(side).conn, target, desc, ctxm, applied)
     with Watchdog():
         with Mem() as m:
@@ -810,14 +814,17 @@ def one_handshake_case(ctx, J, scn, ctxm, side, i, name, d, named=None):
     from harness import lab
     victim = "server" if side == "client" else "client"
 
+    keep_socket = (len(json.dumps(d, sort_keys=True)) + i) % 2 == 1 if "close_socket" not in d else not d["close_socket"]
+
     def fn():
-        L, applied, peak = run_handshake_case(scn, side, i, d, ctxm)
+        L, applied, peak = run_handshake_case(scn, side, i, d, ctxm, close_socket=not keep_socket)
         return L, peak, applied
     L, peak, applied = with_mem_confirm(ctx, victim, fn)
     if L is None or applied.get("inapplicable") or "orig" not in applied:
         ctx.count("inapplicable")
         return None
     mname = name.replace("handshake:", "")
+    d = dict(d, close_socket=not keep_socket)
     replay = {"stage": "handshake", "scn": scn.name, "side": side, "target": i, "msg": mname, "desc": d,
               "cls": d.get("cls", d["op"]), "ctxm": ctxm, "sent": applied.get("sent", b"")[:4096],
               "orig": applied.get("orig", b"")[:4096]}
@@ -1262,18 +1269,25 @@ def run(ctx):
 
 
 def model_correspondence(ctx, J, bases):
-    loop_correspondence(ctx, ctx.pick(1500, 20000))
-    error_table_correspondence(ctx, J)
-    decompress_correspondence(ctx, bases)
-    sh_correspondence(ctx, J, bases)
-    ch_correspondence(ctx, J, ctx.pick(500, 6000))
     from . import c08_flights as FL
-    FL.hrr_stream(ctx, J, ctx.pick(500, 6000))
-    FL.resume_stream(ctx, J, bases)
-    FL.keyed_peer_stream(ctx, J, ctx.thorough())
-    FL.early_data_stream(ctx, J, ctx.thorough())
-    FL.resumption_history_stream(ctx, J, ctx.thorough())
-    FL.flight_stream(ctx, J, bases, ctx.pick(25, 400))
+    secs = ctx.extra.setdefault("stream_seconds", {})
+
+    def timed(name, fn, *a, **kw):
+        t0 = ctx.elapsed()
+        fn(*a, **kw)
+        secs[name] = round(ctx.elapsed() - t0, 1)
+    timed("loop", loop_correspondence, ctx, ctx.pick(1500, 20000))
+    timed("error-table", error_table_correspondence, ctx, J)
+    timed("decompress", decompress_correspondence, ctx, bases)
+    timed("server-hello", sh_correspondence, ctx, J, bases)
+    timed("client-hello", ch_correspondence, ctx, J, ctx.pick(500, 6000))
+    timed("hrr", FL.hrr_stream, ctx, J, ctx.pick(500, 6000))
+    timed("resume", FL.resume_stream, ctx, J, bases)
+    timed("keyed-peer", FL.keyed_peer_stream, ctx, J, ctx.thorough())
+    timed("early-data", FL.early_data_stream, ctx, J, ctx.thorough())
+    timed("resumption-history", FL.resumption_history_stream, ctx, J, ctx.thorough())
+    timed("flight", FL.flight_stream, ctx, J, bases, ctx.pick(25, 400))
+    timed("certificate", FL.certificate_stream, ctx, J, bases, ctx.thorough())
 
 
 def run_input(ctx, J, inp):
@@ -1316,8 +1330,12 @@ def run_input(ctx, J, inp):
         ctxm = dict(inp["ctxm"])
         ctxm["version"] = tuple(ctxm["version"])
         muts = {int(k): v for k, v in inp["muts"].items()}
-        L, applied, peak = run_handshake_case(scn, inp["side"], muts, None, ctxm)
+        L, applied, peak = run_handshake_case(scn, inp["side"], muts, None, ctxm, close_socket=inp.get("close_socket", True))
         return judge(J, L, "server" if inp["side"] == "client" else "client", "flight " + inp.get("cls", ""), inp)
+    if stage == "cert-spki":
+        from . import c08_flights as FL
+        FL.certificate_stream(ctx, J, None, True, only=(inp["scn"], inp["side"], inp["variant"]))
+        return {"violations": [v["key"] for v in ctx.violations]}
     if stage == "keyed-record":
         from . import c08_flights as FL
         FL.keyed_peer_stream(ctx, J, True, only=(inp["scn"], inp["victim"], inp["craft"]))
@@ -1369,7 +1387,7 @@ def replay(ctx, rep):
     tracemalloc.start(1)
     try:
         out = run_input(ctx, J, inp)
-        if out is None and stage not in ("handshake", "raw", "post", "ch-features", "flight", "hrr", "early-data", "resumption-history", "keyed-record"):
+        if out is None and stage not in ("handshake", "raw", "post", "ch-features", "flight", "hrr", "early-data", "resumption-history", "keyed-record", "cert-spki"):
             print("replay of stage %r: re-running the whole check" % stage)
             Mem.mode = "rss"
             run(ctx)
@@ -2077,16 +2095,19 @@ def error_table_correspondence(ctx, J):
             return
         d = {"op": "multi", "steps": steps, "label": msgname, "cls": "error-table", "pver": list(base.ctxm["version"])} \
             if isinstance(steps, list) else dict(steps, label=msgname, cls="error-table", pver=list(base.ctxm["version"]))
-        L, applied, peak = run_handshake_case(scn, side, idx[0], d, base.ctxm)
         victim = "server" if side == "client" else "client"
-        obs = observe_effects(L, victim, 0, peer_reads=False)
-        if kind in ("msgIllegalParameter", "msgBadCertificate") and sname.startswith("tls13"):
-            # encrypted flight: the alert is read by the peer
-            pe = L.end(side).exc
-            obs["wire"] = [(pe.level, pe.description)] if getattr(pe, "description", None) is not None else obs["wire"]
-        else:
-            obs["wire"] = [w for w in obs["wire"] if w[0] in (1, 2)]
-        rows.append((kind, a, b, "hs", True, None, obs, "%s/%s/%s" % (sname, victim, msgname), py))
+        for close_socket in (True, False):
+            # closeSocket=False: the application keeps the socket, the alert must go out by the library's own write
+            L, applied, peak = run_handshake_case(scn, side, idx[0], d, base.ctxm, close_socket=close_socket)
+            obs = observe_effects(L, victim, 0, peer_reads=False)
+            if kind in ("msgIllegalParameter", "msgBadCertificate") and sname.startswith("tls13"):
+                # encrypted flight: the alert is read by the peer
+                pe = L.end(side).exc
+                obs["wire"] = [(pe.level, pe.description)] if getattr(pe, "description", None) is not None else obs["wire"]
+            else:
+                obs["wire"] = [w for w in obs["wire"] if w[0] in (1, 2)]
+            rows.append((kind, a, b, "hs", True, None, obs,
+                         "%s/%s/%s%s" % (sname, victim, msgname, "" if close_socket else "/closeSocket=False"), py))
     during("tls12-ecdhe-rsa", "client", "handshake:client_hello", {"op": "trunc_msg", "at": 20}, "msgSyntaxError")
     during("tls12-ecdhe-rsa", "server", "handshake:server_hello", {"op": "trunc_msg", "at": 10}, "msgSyntaxError")
     during("tls13-x25519", "server", "handshake:compressed_certificate",
